@@ -202,6 +202,10 @@ class Sandbox:
             finally:
                 self.drop_others(h)
             return None
+        if op == "reinit":          # inside a block: remove and initialise again (the other handles hold no document object)
+            own.remove()
+            own.init()
+            return None
         if op == "rekey":
             try:
                 own.sp.r = self.rk.get(h[0], 0) + 1
